@@ -36,8 +36,8 @@ def run(ck):
     rt = S.m["rotate"]
     g = S.g(rt)
     # ---- O1
-    ni = [n for n in rt.calls(RP + "::findNextIndexForDate")]
-    gn = [n for n in rt.calls(RP + "::generateRotatedFileName")]
+    ni = [n for n in S.calls_to(rt, "findNextIndexForDate")]
+    gn = [n for n in S.calls_to(rt, "generateRotatedFileName")]
     ck.require(len(ni) == 1 and len(gn) == 1, "rotate(): index search / name generation not found")
     d1, d2 = skip_copies(ni[0]["args"][0]), skip_copies(gn[0]["args"][0])
     same = d1.get("k") == "ref" and d2.get("k") == "ref" and d1.get("decl") == d2.get("decl")
@@ -181,7 +181,7 @@ def daily(ck, S, DF, RID="C09-O5"):
     it = S.m["init"]
     g = S.g(cd)
     md = cd.params[0]["decl"]
-    rot = [n for n in cd.calls(RP + "::rotate")]
+    rot = [n for n in S.calls_to(cd, "rotate")]
     ck.require(len(rot) == 1, "checkDailyRotation calls rotate() %d times" % len(rot))
     rs_ = g.site_of(rot[0])
 
@@ -209,7 +209,7 @@ def daily(ck, S, DF, RID="C09-O5"):
     ck.ob(RID, sitestr(cd, rot[0]), ok, "daily rotation iff the record's date differs from the file's date and the file is non-empty (6/6 cases)" if ok else "daily rotation guard: %s" % table, key="checkDailyRotation|guard")
     # message date = lmsg.time().date()
     gi = S.g(ri)
-    calls = [n for n in ri.calls(RP + "::checkDailyRotation")]
+    calls = [n for n in S.calls_to(ri, "checkDailyRotation")]
     ck.require(len(calls) == 1, "rotateIfNeeded calls checkDailyRotation %d times" % len(calls))
     arg = skip_copies(calls[0]["args"][0])
     src = deref_local(ri, arg)
@@ -281,7 +281,12 @@ def daily(ck, S, DF, RID="C09-O5"):
             vals = []
             for a in asgs:
                 if g2.site_of(a) in live:
-                    r = skip_copies(a["args"][1])
+                    # the assigned value under this valuation: conditional expressions and flag locals are resolved
+                    r = skip_copies(resolve_value(a["args"][1], atom, it))
+                    if isinstance(r, dict) and r.get("k") == "cond":
+                        cv_ = eval_cond(r.get("cond"), atom, it)
+                        if cv_ is not None:
+                            r = skip_copies(resolve_value(r.get("t") if cv_ else r.get("f"), atom, it))
                     nm, root = call_chain(r)
                     vals.append("mtime" if [x.split("::")[-1] for x in nm] == ["date", "lastModified"] and is_ref_to(root, fd) else "today" if is_call(r, "QDate::currentDate") else describe(r))
             res[(e_, sz)] = vals
